@@ -3271,3 +3271,38 @@ for _p in ("C20", "C19", "C12"):
 for _p in ("C01", "C08", "C12", "C18", "C19", "C20"):
     if "PROG" not in PROPS[_p]["tags"]:
         PROPS[_p]["tags"] = tuple(PROPS[_p]["tags"]) + ("PROG",)
+
+
+# ------------------------------------------------------------------ round 10
+def laziness_cases(prefix):
+    """WHICH sub-expressions are evaluated, in which order, how often: a failing operand (division by a zero variable, a read
+    of an output at Z) on the right of every binary operator whose left operand is 0 / 1 / -1, on the left, on both sides
+    (the LEFT error is the one reported); literal zeros next to failing operands; ite with a failing condition and equal
+    branches, with an unselected failing or floating branch, with leaf branches; drawing operands on both sides (the bounds
+    are logged in evaluation order)"""
+    sigs = [{"name": "A", "typ": "I", "bits": 8, "default": "0"}, {"name": "Q", "typ": "O", "bits": 8, "default": "-"}, {"name": "EN", "typ": "O", "bits": 1, "default": "-"}]
+    exprs = []
+    for op in gen.BINOPS:
+        for l in ("k", "1", "(0-1)", "0"):
+            exprs.append("%s %s (8/k)" % (l, op))
+            exprs.append("(8/k) %s %s" % (op, l))
+        exprs.append("Q %s (1/k)" % op)
+        exprs.append("(1/k) %s Q" % op)
+        exprs.append("random(3) %s random(5)" % op)
+        exprs.append("(random(7)+1) %s (random(2)+random(9))" % op)
+    exprs += ["0 * (1/0)", "(1/0) * 0", "0 & (1%0)", "0 / k", "0 % k", "0 << (1/k)", "0 >> Q", "k * Q", "Q * k", "k & Q",
+              "ite(1/k,5,5)", "ite(Q,5,5)", "ite(k,1/k,3)", "ite(1,3,1/k)", "ite(EN,Q,7)", "ite(EN,7,Q)", "ite(k,Q,Q)", "ite(1,7,Q)", "ite(0,Q,7)",
+              "ite(random(2)-1,random(3),random(4))", "ite(k,random(3),4)+random(5)", "random(random(3)+2)", "signExt(1/k,Q)", "signExt(k,k)",
+              "-(1/k)", "!(8%k)", "~Q", "!Q", "k = (1/k)", "(1/k) = k", "1 | (1/k)", "(0-1) | Q", "0 ^ Q"]
+    cases = []
+    for k, e in enumerate(exprs):
+        for (qv, env) in (("Z", "0"), ("5", "0"), ("Z", "1")):
+            src = "A Q EN\nlet k = 0;\n(%s) X X\n(%s) X X\n" % ("k", e) if False else "A Q EN\nlet k = 0;\n1 X X\n(%s) X X\nresetRandom;\n(random(11)) X X\n" % e
+            cases.append({"id": "%s-lazy-%d-%s%s" % (prefix, k, qv, env), "kind": "run", "src": src, "sigs": [dict(s_) for s_ in sigs], "layout": [1, 2], "table": [[qv, env]],
+                          "echo": 0, "wdefault": k % 2, "faults": [], "max": 12, "seed": 5 + k, "cont": 1})
+    return cases
+
+
+for _p in ("C08", "C01", "C04", "C10", "C14", "C17"):
+    _extend(_p, (lambda pref: (lambda seed, tier: laziness_cases(pref)))(_p.lower()),
+            "plus laziness / order shapes: a failing operand on either side of every binary operator next to 0 / 1 / -1 operands, which of two errors wins, literal zeros next to failing operands, ite with failing conditions / unselected failing branches / leaf branches, drawing operands on both sides")
